@@ -365,3 +365,175 @@ func TestPropScalarSteps(t *testing.T) {
 		recScalar.MaybeSample(nt, func() any { return s })
 	})
 }
+
+// ---------------------------------------------------------------------------
+// Lists of steps: the rule is applied to every element of a list, however long, and every unknown
+// element comes with its own warning
+
+// countSentinels walks the error tree and counts the occurrences of the two sentinels.
+func countSentinels(err error) (unknownType, inference int) {
+	var visit func(error)
+	visit = func(e error) {
+		switch {
+		case e == nil:
+			return
+		case e == pipeline.ErrUnknownStepType:
+			unknownType++
+			return
+		case e == pipeline.ErrStepTypeInference:
+			inference++
+			return
+		}
+		switch u := e.(type) {
+		case interface{ Unwrap() []error }:
+			for _, c := range u.Unwrap() {
+				visit(c)
+			}
+		case interface{ Unwrap() error }:
+			visit(u.Unwrap())
+		}
+	}
+	visit(err)
+	return
+}
+
+var recLists = ev.New("TestPropStepLists", "pipelines whose step list holds 1-150 elements (rows of the rule table, scalar steps, group steps holding further rows) as JSON-flow or block YAML: every element's kind equals the rule table's in its position, and the returned warning tree holds exactly one unknown-type sentinel per element the table sends to 'unknown type' and one inference sentinel per element it sends to 'failed inference' (none when every element is known) - no element's warning is dropped or merged however many precede it; non-trivial = >= 33 unknown elements in one list, or unknown elements inside a group; distinct by document text")
+
+func TestPropStepLists(t *testing.T) {
+	knownScalar := map[string]string{"wait": doc.KWait, "waiter": doc.KWait, "block": doc.KInput, "input": doc.KInput, "manual": doc.KInput}
+	ev.Check(t, 400, 8000, func(t *rapid.T) {
+		type elem struct {
+			json  string
+			kind  string
+			cause error
+			sub   []elem
+		}
+		var nUnknownType, nInference, inGroup, maxUnknownInList int
+		var genList func(depth int, n int, unknownBias int) []elem
+		genList = func(depth, n, unknownBias int) []elem {
+			var out []elem
+			unk := 0
+			for i := 0; i < n; i++ {
+				switch c := rapid.IntRange(0, 9).Draw(t, "elem"); {
+				case c == 0:
+					s := rapid.SampledFrom([]string{"wait", "waiter", "block", "input", "manual", "Wait", "wait ", "waiters", "trigger", "command", "group", ""}).Draw(t, "scalar")
+					j, _ := json.Marshal(s)
+					e := elem{json: string(j)}
+					if k, ok := knownScalar[s]; ok {
+						e.kind = k
+					} else {
+						e.kind, e.cause = doc.KUnknown, pipeline.ErrUnknownStepType
+					}
+					out = append(out, e)
+				case c == 1 && depth == 0:
+					sub := genList(1, rapid.IntRange(0, 6).Draw(t, "ngroup"), unknownBias)
+					parts := make([]string, len(sub))
+					for i, s := range sub {
+						parts[i] = s.json
+					}
+					out = append(out, elem{json: `{"group": "g", "steps": [` + strings.Join(parts, ", ") + `]}`, kind: doc.KGroup, sub: sub})
+				default:
+					r := row{Mask: rapid.IntRange(0, 1023).Draw(t, "mask"), Type: rapid.SampledFrom(typeValues).Draw(t, "type"), JSON: true, Rot: rapid.IntRange(0, 10).Draw(t, "rot")}
+					if rapid.IntRange(0, 9).Draw(t, "mkunknown") < unknownBias {
+						if rapid.Bool().Draw(t, "byType") {
+							r.Type = rapid.SampledFrom([]string{"", "foo", "Command", "wait ", "steps"}).Draw(t, "badtype")
+						} else {
+							r.Mask, r.Type = 0, "<absent>"
+						}
+					}
+					if r.Mask&(1<<9) != 0 && depth > 0 {
+						r.Mask &^= 1 << 9 // no group inside a group
+					}
+					has := func(k string) bool {
+						for i, kk := range kindKeys {
+							if kk == k {
+								return r.Mask&(1<<i) != 0
+							}
+						}
+						return false
+					}
+					kind, cause := expected(has, r.Type, r.Type != "<absent>")
+					if kind == doc.KGroup && depth > 0 {
+						// a group by type inside a group: leave that corner to the table test
+						r.Type = "command"
+						kind, cause = doc.KCommand, nil
+					}
+					txt := r.text() // {"steps": [{...}]}
+					txt = strings.TrimSuffix(strings.TrimPrefix(txt, `{"steps": [`), "]}")
+					out = append(out, elem{json: txt, kind: kind, cause: cause})
+				}
+				last := out[len(out)-1]
+				if last.cause != nil {
+					unk++
+					if depth > 0 {
+						inGroup++
+					}
+					if last.cause == pipeline.ErrUnknownStepType {
+						nUnknownType++
+					} else {
+						nInference++
+					}
+				}
+			}
+			maxUnknownInList = max(maxUnknownInList, unk)
+			return out
+		}
+		n := rapid.IntRange(1, 8).Draw(t, "n")
+		bias := rapid.IntRange(0, 3).Draw(t, "bias")
+		if rapid.IntRange(0, 3).Draw(t, "long") == 0 {
+			n = rapid.IntRange(33, 150).Draw(t, "nlong")
+			bias = rapid.SampledFrom([]int{1, 5, 9, 10}).Draw(t, "longbias")
+		}
+		list := genList(0, n, bias)
+		var b strings.Builder
+		block := rapid.Bool().Draw(t, "block")
+		if block {
+			b.WriteString("steps:\n")
+			for _, e := range list {
+				b.WriteString("  - " + e.json + "\n")
+			}
+		} else {
+			parts := make([]string, len(list))
+			for i, e := range list {
+				parts[i] = e.json
+			}
+			b.WriteString(`{"steps": [` + strings.Join(parts, ", ") + `]}`)
+		}
+		text := b.String()
+		p, err := pipeline.Parse(strings.NewReader(text))
+		if err != nil && !warning.Is(err) {
+			t.Fatalf("Parse hard-failed: %v\n%s", err, text)
+		}
+		var cmp func(path string, got pipeline.Steps, want []elem)
+		cmp = func(path string, got pipeline.Steps, want []elem) {
+			if len(got) != len(want) {
+				t.Fatalf("%s: %d steps parsed, %d written\n%s", path, len(got), len(want), text)
+			}
+			for i, e := range want {
+				if k := kindOf(got[i]); k != e.kind {
+					t.Fatalf("%s[%d] (%s): kind %s, rule table says %s\n%s", path, i, e.json, k, e.kind, text)
+				}
+				if e.sub != nil {
+					cmp(fmt.Sprintf("%s[%d].steps", path, i), got[i].(*pipeline.GroupStep).Steps, e.sub)
+				}
+			}
+		}
+		cmp("steps", p.Steps, list)
+		gotUT, gotInf := countSentinels(err)
+		if gotUT != nUnknownType || gotInf != nInference {
+			t.Fatalf("the warning identifies %d unknown-type and %d failed-inference steps; the list holds %d and %d such steps (every unknown step comes with its warning)\nwarning: %.1500v\n%s", gotUT, gotInf, nUnknownType, nInference, err, text)
+		}
+		if nUnknownType+nInference == 0 && err != nil {
+			t.Fatalf("every step is of a known kind but Parse warns: %v\n%s", err, text)
+		}
+		nt := maxUnknownInList >= 33 || inGroup > 0
+		cls := "unknown-in-one-list<33"
+		if maxUnknownInList >= 33 {
+			cls = "unknown-in-one-list>=33"
+		}
+		recLists.Case(ev.HashStr(text), nt, cls, fmt.Sprintf("block=%v", block))
+		recLists.MaybeSample(nt, func() any {
+			return map[string]any{"steps": len(list), "unknown_type": nUnknownType, "failed_inference": nInference, "unknown_in_groups": inGroup, "head": text[:min(len(text), 300)]}
+		})
+	})
+}
